@@ -1,0 +1,36 @@
+//go:build verif
+
+package fastforward
+
+import (
+	"fmt"
+
+	"github.com/IrineSistiana/mosdns/v5/pkg/upstream"
+	"go.uber.org/zap"
+)
+
+// VerifNewForward builds a Forward over caller-supplied upstreams (verification only).
+// tags may be nil or must have len(us) entries (empty string = no tag).
+func VerifNewForward(us []upstream.Upstream, tags []string, concurrent int) (*Forward, error) {
+	f := &Forward{
+		args:         &Args{Concurrent: concurrent},
+		logger:       zap.NewNop(),
+		tag2Upstream: make(map[string]*upstreamWrapper),
+	}
+	for i, u := range us {
+		cfg := UpstreamConfig{Addr: fmt.Sprintf("verif-%d", i)}
+		if tags != nil {
+			cfg.Tag = tags[i]
+		}
+		uw := newWrapper(i, cfg, "verif")
+		uw.u = u
+		f.us = append(f.us, uw)
+		if len(cfg.Tag) > 0 {
+			if _, dup := f.tag2Upstream[cfg.Tag]; dup {
+				return nil, fmt.Errorf("duplicated upstream tag %s", cfg.Tag)
+			}
+			f.tag2Upstream[cfg.Tag] = uw
+		}
+	}
+	return f, nil
+}
